@@ -291,3 +291,114 @@ def check_fill_scope(col, rule: str, repo: Repo):
             "the scope restored before emitting Fill must be as_sequence(find_fill_scope(source)).scope(), defined once "
             f"(definitions: {[src(d)[:60] for d in ds]}): a fill scope that follows the last scalar column puts Fill and the "
             "other columns inside that column's if/loop", f.loc)
+
+
+def check_core_scope_semantics(col, rule: str, repo: Repo):
+    """The small data-structure operations every placement decision rests on (scope tokens, the cursor, blocks).
+    Each obligation states what the operation must do; the oracle is the operation's contract, not its current text."""
+    def one_return(f):
+        rets = [r for r in walk_no_nested(f.node) if isinstance(r, ast.Return)]
+        return rets[0].value if len(rets) == 1 else None
+
+    gs = repo.find_class("gc_scope")
+    gi = gs.methods["__getitem__"]
+    rets = [r for r in walk_no_nested(gi.node) if isinstance(r, ast.Return)]
+    ok = len(rets) == 1 and src(rets[0].value) == "gc_scope(self._scope_stack[:key])" and any(isinstance(r, ast.Raise) for r in walk_no_nested(gi.node))
+    col.add(rule, "gc_scope.__getitem__", "scope[k]-is-the-prefix-up-to-k", ok,
+            "scope[-1] must be the same stack without its last frame (self._scope_stack[:key]); an empty result must raise", gi.loc)
+    dv = gs.methods["declare_variable"]
+    ok = any(isinstance(c, ast.Call) and src(c) == f"self._scope_stack[-1].declare_variable({dv.node.args.args[1].arg})" for c in ast.walk(dv.node))
+    col.add(rule, "gc_scope.declare_variable", "declares-on-the-innermost-frame-of-the-token", ok, "", dv.loc)
+    fs = gs.methods["frame_statements"]
+    v = one_return(fs)
+    col.add(rule, "gc_scope.frame_statements", "returns-the-frame-at-key", v is not None and src(v) == f"self._scope_stack[{fs.node.args.args[1].arg}]", "", fs.loc)
+    ci = gs.methods["__init__"]
+    ok = any(isinstance(n, ast.Assign) and src(n.targets[0]) == "self._scope_stack" and "copy" in src(n.value) for n in ast.walk(ci.node))
+    col.add(rule, "gc_scope.__init__", "token-snapshots-the-stack", ok, "a scope token must hold its own copy of the stack (later pushes must not change it)", ci.loc)
+    ds = repo.function("deepest_scope")
+    rr = [r for r in walk_no_nested(ds.node) if isinstance(r, ast.Return)]
+    from sa.core.paths import guards, parent_map
+    pm = parent_map(ds.node)
+    sig = [(src(r.value), [(src(t), tr) for t, tr in guards(ds.node, r, pm)]) for r in rr]
+    p0, p1 = ds.node.args.args[0].arg, ds.node.args.args[1].arg
+    ok = sig == [(p0, [("not s2.starts_with(s1)", True)]), (p0, [("s1.starts_with(s2)", True), ("not s2.starts_with(s1)", False)]),
+                 (p1, [("not s2.starts_with(s1)", False), ("s1.starts_with(s2)", False)])]
+    s1d = {src(n.targets[0]): src(n.value) for n in walk_no_nested(ds.node) if isinstance(n, ast.Assign)}
+    ok = ok and s1d == {"s1": f"{p0}.scope()", "s2": f"{p1}.scope()"}
+    col.add(rule, "deepest_scope", "second-wins-only-if-strictly-deeper", ok,
+            f"must return the second value only when its scope strictly extends the first's, otherwise the first (returns/guards found: {sig})", ds.loc)
+    tl = repo.find_class("gc_scope_top_level")
+    sw = tl.methods["starts_with"]
+    v = one_return(sw)
+    col.add(rule, "gc_scope_top_level.starts_with", "top-level-only-starts-with-top-level", v is not None and src(v) == "type(c) is gc_scope_top_level", "", sw.loc)
+    sws = gs.methods["starts_with"]
+    s = src(sws.node)
+    col.add(rule, "gc_scope.starts_with", "everything-starts-with-top-level", "if c.is_top_level():\n        return True" in s, "", sws.loc)
+
+    gc = repo.find_class("generated_code")
+    ad = gc.methods["add_statement"]
+    s = src(ad.node)
+    ok = "self._scope_stack[-1].add_statement(st)" in s and "if isinstance(st, block):\n            self._scope_stack = self._scope_stack + (st,)" in s
+    col.add(rule, "generated_code.add_statement", "appends-to-innermost-and-enters-blocks-only", ok,
+            "a statement goes to the innermost open block; the cursor descends only into block statements", ad.loc)
+    pp = gc.methods["pop_scope"]
+    ok = any(isinstance(n, ast.Assign) and src(n) == "self._scope_stack = self._scope_stack[:-1]" for n in ast.walk(pp.node))
+    col.add(rule, "generated_code.pop_scope", "leaves-exactly-one-block", ok, "", pp.loc)
+    cs = gc.methods["current_scope"]
+    v = one_return(cs)
+    col.add(rule, "generated_code.current_scope", "token-of-the-whole-stack", v is not None and src(v) == "gc_scope(self._scope_stack)", "", cs.loc)
+    ss = gc.methods["set_scope"]
+    s = src(ss.node)
+    ok = "self._scope_stack = scope_info._scope_stack" in s and "if scope_info.is_top_level():\n        self._scope_stack = self._scope_stack[:1]\n        return" in s
+    col.add(rule, "generated_code.set_scope", "restores-the-token's-stack", ok,
+            "set_scope must restore exactly the token's stack (top level = the outermost block only)", ss.loc)
+    dvc = gc.methods["declare_variable"]
+    ok = f"self._scope_stack[-1].declare_variable({dvc.node.args.args[1].arg})" in src(dvc.node)
+    col.add(rule, "generated_code.declare_variable", "declares-on-the-innermost-open-block", ok, "", dvc.loc)
+    gr = gc.methods["get_rep"]
+    s = src(gr.node)
+    ok = "reversed(self._scope_stack)" in s and "next(items, None)" in s
+    col.add(rule, "generated_code.get_rep", "innermost-definition-wins", ok, "the lookup must walk the open blocks from the innermost outwards", gr.loc)
+    sr = gc.methods["set_rep"]
+    col.add(rule, "generated_code.set_rep", "defined-on-the-innermost-open-block", "self._scope_stack[-1].set_rep(name, value)" in src(sr.node), "", sr.loc)
+    gci = gc.methods["__init__"]
+    col.add(rule, "generated_code.__init__", "starts-inside-the-outermost-block", "self._scope_stack = (self._block,)" in src(gci.node), "", gci.loc)
+    bk = repo.find_class("block", hint="common.statement")
+    s = src(bk.methods["add_statement"].node)
+    col.add(rule, "block.add_statement", "appends-in-order", "self._statements += [s]" in s or "self._statements.append(s)" in s, "", bk.methods["add_statement"].loc)
+    s = src(bk.methods["declare_variable"].node)
+    col.add(rule, "block.declare_variable", "appends-in-order", "self._variables += [n]" in s or "self._variables.append(n)" in s, "", bk.methods["declare_variable"].loc)
+    s = src(bk.methods["set_rep"].node)
+    col.add(rule, "block.set_rep", "refuses-a-second-definition", "raise BlockException" in s and "self._rep_dict[name] = value" in s, "", bk.methods["set_rep"].loc)
+    s = src(bk.methods["get_rep"].node)
+    col.add(rule, "block.get_rep", "own-definitions-only", "return self._rep_dict[name]" in s and "return None" in s, "", bk.methods["get_rep"].loc)
+
+    # as_sequence: an existing sequence is reused; a collection is looped over once per block chain (remembered on the cursor)
+    qs = repo.method("query_ast_visitor", "as_sequence")
+    from sa.core.paths import enumerate_paths
+    ok = True
+    n_make = 0
+    for p in enumerate_paths(qs.node):
+        names = [call_name(e.node) for e in p.events if e.kind == "call"]
+        if "make_sequence_from_collection" in names:
+            n_make += 1
+            ok = ok and "set_rep" in names and names.index("make_sequence_from_collection") < names.index("set_rep") and "get_rep" in names
+    col.add(rule, "query_ast_visitor.as_sequence", "loop-over-a-collection-remembered-on-the-cursor", ok and n_make >= 1,
+            "when a collection is turned into a loop the (collection -> sequence) pair must be recorded with _gc.set_rep so that a second use "
+            "in the same block chain reuses the loop, after _gc.get_rep was consulted", qs.loc)
+    # code_fill_ttree's local set_scope: stay where the value was computed only if that is inside the fill scope
+    cf = repo.method("query_ast_visitor", "code_fill_ttree")
+    hs = [n for n in ast.walk(cf.node) if isinstance(n, ast.FunctionDef) and n.name == "set_scope"]
+    ok = len(hs) == 1
+    if ok:
+        h = hs[0]
+        a, b = h.args.args[0].arg, h.args.args[1].arg
+        ifs = [n for n in h.body if isinstance(n, ast.If)]
+        ok = len(ifs) == 1 and src(ifs[0].test) == f"{a}.starts_with({b})" and src(ifs[0].body[0].value) == f"self._gc.set_scope({a})" \
+            and src(ifs[0].orelse[0].value) == f"self._gc.set_scope({b})"
+    col.add(rule, "query_ast_visitor.code_fill_ttree", "column-set-where-computed-if-inside-the-fill-scope-else-at-it", ok,
+            "a column is assigned at the scope of its value when that scope lies inside the fill scope, otherwise at the fill scope", cf.loc)
+    calls = [c for c in ast.walk(cf.node) if isinstance(c, ast.Call) and isinstance(c.func, ast.Name) and c.func.id == "set_scope"]
+    ok = sorted(src(c).replace(" ", "") for c in calls) == ["set_scope(e_rep.scope(),scope_fill)", "set_scope(scope,scope_fill)"]
+    col.add(rule, "query_ast_visitor.code_fill_ttree", "placement-uses-the-value's-own-scope", ok,
+            f"placements found: {[src(c) for c in calls]}", cf.loc)
